@@ -99,7 +99,7 @@ func c14RPC(w *env.World, d *env.Direct, kind, outcome, tag string) {
 				return herr
 			}
 		}
-	case "reset":
+	case "reset", "lateempty":
 		// the handler returns at once; the caller's later body is answered by a reset
 		w.Handlers[tag] = env.HReturnAfter(0, nil)
 	default:
@@ -142,6 +142,14 @@ func c14RPC(w *env.World, d *env.Direct, kind, outcome, tag string) {
 		runOps(r, cs, "R", never, &log, &n)
 	case outcome == "deadline":
 		runOps(r, cs, "SRR", never, &log, &n) // the second R blocks until the deadline
+	case outcome == "lateempty":
+		// zero-length messages sent while the handler is returning / has returned
+		for i := 0; i < 3; i++ {
+			if err := cs.SendMsg(env.S("")); err != nil {
+				break
+			}
+		}
+		env.CRecvAll(r, cs)
 	case outcome == "reset":
 		// keep sending until the server's reset (a body for a stream it no longer knows) ends the stream
 		env.CRecvOne(r, cs) // the handler's trailer: clean end
@@ -155,14 +163,14 @@ func c14RPC(w *env.World, d *env.Direct, kind, outcome, tag string) {
 func c14(tier string) []*explore.Scenario {
 	var out []*explore.Scenario
 	kinds := []string{"Unary", "Bidi", "SStream", "CStream"}
-	outcomes := []string{"ok", "herr", "cancel0", "cancel1", "cancel2", "cancel3", "deadline", "reset", "openfail", "sendfail", "cancelsend"}
+	outcomes := []string{"ok", "herr", "cancel0", "cancel1", "cancel2", "cancel3", "deadline", "reset", "lateempty", "openfail", "sendfail", "cancelsend"}
 	bound := 1
 	if tier == "thorough" {
 		bound = 2
 	}
 	for _, k := range kinds {
 		for _, o := range outcomes {
-			if k == "Unary" && (o == "reset" || o == "sendfail" || (strings.HasPrefix(o, "cancel") && o != "cancel0")) {
+			if k == "Unary" && (o == "reset" || o == "lateempty" || o == "sendfail" || (strings.HasPrefix(o, "cancel") && o != "cancel0")) {
 				continue
 			}
 			out = append(out, c14One([][2]string{{k, o}}, bound))
